@@ -1,7 +1,7 @@
 LIBS = ["libvpsc"]
 HARNESS = "harness/c09.cpp"
 DRIVER_MODE = "c09"
-LEAN_MODULES = ["AdaptaVerif.Props.C09"]
+LEAN_MODULES = ["AdaptaVerif.Props.C09", "AdaptaVerif.Props.C09Tie"]
 LEVEL = "proof"
 LEVEL_TEXT = ("Lean 4 theorems about a hand-written model of the scan-line generators of libvpsc/rectangle.cpp "
               "(firstAbove/firstBelow and neighbour-set bookkeeping), for ALL rectangle arrays, ALL border values, "
@@ -58,6 +58,15 @@ EXPLANATION = ("DIVERGE: on a tie-free input the C++ constraint multiset differs
                "without a separating chain / gap too small (cy, cx0); after removeoverlaps: escaped exception, "
                "non-finite coordinate, borders not restored, size changed > 1e-9, overlap > 1e-6 in both axes, fixed "
                "rectangle moved >= 1% of the mean size.")
+
+def regenerate(ROOT, REPO):
+    """the vpsc::Rectangle kernels of the scan-line model (getters with the global border, centres, overlapX/Y, moves) are regenerated from libvpsc/rectangle.h by cpp2lean on every run and proved equal to Model.Scanline.Rect.* (Props/C09Tie.lean)"""
+    import sys
+    from pathlib import Path
+    sys.path.insert(0, str(Path(ROOT) / "tools" / "cpp2lean"))
+    import jobs
+    return jobs.regenerate(["rect"], Path(ROOT), Path(REPO))
+
 
 def plan(tier, seed, searching):
     return [dict(hargs=["--seed", str(seed), "--tier", tier, "--scale", "8" if searching else "1"],
